@@ -112,9 +112,10 @@ THsOk ==
        /\ conns[i].pat = (IF Ev.pattern = "KK" THEN "KK" ELSE "XX")
        /\ v2 = (Ev.version >= 2)
        /\ IF Ev.side = Srv
-          THEN HsServerDone(i) \/ HsBothDone(i)
+          THEN IF conns[i].noise = "up" THEN UNCHANGED vars    \* reported by HsBothDoneKK
+               ELSE HsServerDone(i) \/ HsBothDone(i)
           ELSE IF conns[i].noise = "up" THEN UNCHANGED vars    \* reported by HsBothDone
-          ELSE HsClientDone(i)
+          ELSE HsClientDone(i) \/ HsBothDoneKK(i)
        /\ (remote'[Ev.side] # None) = (Ev.paired = 1)
     /\ UNCHANGED <<idOf, rboxes, off>>
 
